@@ -617,3 +617,7 @@ func HasPrefixAny(s string, pre ...string) bool {
 	}
 	return false
 }
+
+// RetOperand resolves result #idx of a Return, looking through the result-cell spill that go/ssa
+// emits for functions containing defer.
+func RetOperand(r *ssa.Return, idx int) ssa.Value { return retOperand(r, idx) }
